@@ -51,6 +51,12 @@ def Conforms (H : Bytes → Bytes) (decomp : Nat → Bytes → Nat → Option By
   ∃ a cks, tryInit H features (honestReadAt archive) = .ok a ∧ Describes H a src cks ∧
     Stored H decomp a archive
 
+/-- Where the source's chunks live in the source: `(offset, bytes)` of every chunk in order (C13:
+the only writes a clone may issue). -/
+def chunkPlacements : List Bytes → Nat → List (Nat × Bytes)
+  | [], _ => []
+  | c :: cs, off => (off, c) :: chunkPlacements cs (off + c.length)
+
 /-- Keys (truncated strong hashes) of the chunks the archive's chunker finds in a byte string. -/
 def chunkKeys (H : Bytes → Bytes) (cfg : Config) (n : Nat) (data : Bytes) : List Bytes :=
   (chunkAll cfg data).map fun c => hashTruncate (H (slice data c.1 c.2)) n
